@@ -107,6 +107,11 @@ def check_instance(entry, r, pools, rng, ctx, stats):  # noqa: C901, PLR0912
         except Exception as e:  # noqa: BLE001
             # a literal value can hit a pole (division by zero, "Invalid NaN comparison"): only a
             # failure if a pure renaming (no pole possible) raises as well
+            if "not supported between instances of 'function'" in str(e):
+                # two instances that differ only in a function-valued attribute inside one Add/Mul: SymPy cannot
+                # order them (Basic.compare on _hashable_content); excluded input, recorded (notes/findings_C14.md)
+                stats["unorderable_function_attributes_skipped"] = stats.get("unorderable_function_attributes_skipped", 0) + 1
+                continue
             ren = {k: sp.Symbol(k.name + "_r", **(getattr(k, "_assumptions_orig", {}) or {})) for k in sigma}
             try:
                 r.xreplace(ren).doit()
@@ -287,6 +292,49 @@ def standard_instance(entry, pools, rng, compound: bool = False):
     return entry.build(*args, attrs=attrs)
 
 
+def compound_variants(entry, pools, rng, limit: int):
+    """Compound arguments at the level of the DIRECT argument of each printer: for every SymPy slot
+    of the class, the standard argument replaced by an Add / ArraySum of two valid arguments, by a
+    negation and by a scalar multiple (hand-written `_numpycode` strings forget parentheses exactly there).
+    Returns (label, instance) pairs, at most `limit` (seeded sample)."""
+    import sympy as sp
+
+    from ampform.kinematics.lorentz import ThreeMomentum
+    from ampform.sympy._array_expressions import ArraySum
+
+    p0, p1 = pools.momenta[0], pools.momenta[1]
+    x, y = sp.symbols("x y", positive=True)
+    base = standard_instance(entry, pools, rng)
+    vals = [getattr(base, f.name) for f in entry.fields]
+    out = []
+    for i, f in enumerate(entry.fields):
+        if not f.metadata.get("sympify"):
+            continue
+        n = f.name.lower()
+        if n in {"momentum", "array"}:
+            alts = [("ArraySum", ArraySum(p0, p1)), ("Add", p0 + p1), ("negation", -p0), ("scalar multiple", 2 * p0)]
+        elif n == "vector":
+            v0, v1 = ThreeMomentum(p0), ThreeMomentum(p1)
+            alts = [("ArraySum", ArraySum(v0, v1)), ("Add", v0 + v1), ("negation", -v0), ("scalar multiple", 2 * v0),
+                    ("difference", v0 - v1)]
+        elif n in {"n_events", "shape", "ones", "zeros", "angular_momentum", "l"}:
+            continue
+        elif n in {"beta", "angle"}:
+            alts = [("Add", x / (x + y) + y / 7), ("negation", -x / (x + y)), ("scalar multiple", x / (2 * (x + y)))]
+        else:
+            alts = [("Add", vals[i] + y), ("negation", -vals[i]), ("scalar multiple", 3 * vals[i]), ("quotient", vals[i] / (x + y))]
+        for kind, a in alts:
+            v2 = list(vals)
+            v2[i] = a
+            try:
+                out.append((f"{f.name} = {kind}", entry.cls(*v2)))
+            except Exception:  # noqa: BLE001, S112
+                continue
+    if len(out) > limit:
+        out = rng.sample(out, limit)
+    return out
+
+
 def generated_source(expr, lam_args, cse: bool) -> str:
     import inspect
 
@@ -306,7 +354,7 @@ def source_structure(src: str) -> str:
     return ast.dump(fn, annotate_fields=False, include_attributes=False)
 
 
-def numpy_code_agrees(entry, pools, rng, n_events=6):  # noqa: C901, PLR0912, PLR0915
+def numpy_code_agrees(entry, pools, rng, n_events=6, n_compound=8):  # noqa: C901, PLR0912, PLR0915
     """(4) numerical code of the folded form = numerical code of the unfolded form.
 
     Two ways, for cse off and on:
@@ -335,12 +383,15 @@ def numpy_code_agrees(entry, pools, rng, n_events=6):  # noqa: C901, PLR0912, PL
         subjects.append(("instance", standard_instance(entry, pools, rng, compound=True)))
     except Exception as e:  # noqa: BLE001
         fails.append({"class": "cannot instantiate a NumPyPrintable class with standard arguments", "cls": entry.key, "error": repr(e), "arguments": "compound"})
+    subjects += [("instance", v, lab) for lab, v in compound_variants(entry, pools, rng, n_compound)]
     if label_ok(entry):
         # also inside arithmetic, as it occurs in kinematic variables
         subjects.append(("instance**2 + 1", r**2 + 1))
     nprng = np.random.default_rng(rng.randrange(2**31))
     n = 0
-    for label, folded in subjects:
+    for subject in subjects:
+        label, folded = subject[0], subject[1]
+        variant = subject[2] if len(subject) > 2 else ""
         unfolded = folded.doit()
         free = sorted(folded.free_symbols | unfolded.free_symbols, key=str)
         arrays = sorted((a for a in folded.atoms(type(p)) | unfolded.atoms(type(p))), key=str)
@@ -365,6 +416,8 @@ def numpy_code_agrees(entry, pools, rng, n_events=6):  # noqa: C901, PLR0912, PL
             inputs[kind] = vals
         for cse in (False, True):
             rec = {"cls": entry.key, "expr": sp.srepr(folded)[:800], "form": label, "cse": cse}
+            if variant:
+                rec["compound_argument"] = variant
             try:
                 src_f, src_u = generated_source(folded, lam_args, cse), generated_source(unfolded, lam_args, cse)
                 f1 = sp.lambdify(lam_args, folded, "numpy", cse=cse)
